@@ -105,6 +105,7 @@ def run_one(check, seed, index, tier, workdir, scenario=None):
     simproc.install_simhash(scenario.get("hash_salt", 0))
     simproc.install_locale(scenario)
     simproc.install_salted_sets(scenario)
+    simproc.set_workdir(workdir)
     faulthandler.dump_traceback_later(RUN_TIMEOUT, exit=True)
     try:
         check.execute(scenario, ctx)
